@@ -723,6 +723,30 @@ class Interp:
     def x_FunctionDef(self, s, fr):
         fr.env[s.name] = FuncVal(fr.mod, s, None, closure=fr.env)
 
+    def x_Match(self, s, fr):
+        """`match subject:` with literal / None / wildcard / capture patterns (and guards): the first case whose pattern matches is run, like the equivalent if/elif chain."""
+        subj = self.eval(s.subject, fr)
+        for case in s.cases:
+            p = case.pattern
+            if isinstance(p, ast.MatchSingleton):
+                cond = (subj is p.value) if not is_sym(subj) else (False if p.value is None else self.truth(self.compare("==", subj, p.value)))
+            elif isinstance(p, ast.MatchValue):
+                cond = self.truth(self.compare("==", subj, self.eval(p.value, fr)))
+            elif isinstance(p, ast.MatchAs) and p.pattern is None:
+                if p.name is not None:
+                    fr.env[p.name] = subj
+                cond = True
+            else:
+                raise Unsupported(f"match pattern {type(p).__name__} at {fr.mod.modname}:{s.lineno}")
+            cond = simp(cond) if is_sym(cond) else cond
+            if (self.decide(cond) if is_sym(cond) else cond):
+                if case.guard is not None:
+                    g = self.truth(self.eval(case.guard, fr))
+                    if not (self.decide(g) if is_sym(g) else g):
+                        continue
+                self.exec_block(case.body, fr)
+                return
+
     def x_If(self, s, fr):
         c = self.truth(self.eval(s.test, fr))
         c = simp(c) if is_sym(c) else c
@@ -1374,6 +1398,8 @@ class Interp:
                 v_ = self.eval(base.cls.attrs[attr], Frame(base.cls.mod, {}, base.cls))
                 if type(v_).__name__ == "StaticFn":
                     return v_.fn
+                if type(v_).__name__ == "PropVal":
+                    return self.call(v_.fget, [base])
                 if isinstance(v_, FuncVal) and v_.bound is None and isinstance(base.cls.attrs[attr], ast.Name):
                     return FuncVal(v_.mod, v_.node, v_.cls, bound=base, closure=getattr(v_, "closure", None))     # a plain function stored on the class is a method
                 return v_
